@@ -77,6 +77,7 @@ static void* fiber_prog(void* param) {
         r = (fiber_join(c, &res) == FIBER_SUCCESS && res == (void*)(intptr_t)a) ? 0 : 7;
         break;
       }
+      case 18: usleep(1000 + 4000 * (unsigned)a); break;   /* fiber sleep of 2 or 6 virtual ticks (the main fiber advances time) */
       case 15: fiber_cond_signal(&cond); break;      /* signal WITHOUT holding the user mutex */
       case 16: fiber_cond_broadcast(&cond); break;   /* broadcast WITHOUT holding the user mutex */
       case 17:   /* wait on the condition twice in a row (re-wait immediately), no predicate */
@@ -138,6 +139,8 @@ static void main_fiber(void) {
   /* keep releasing condition waiters until every fiber has finished */
   while (atomic_load(&nfinished) < nf) {
     fiber_mutex_lock(&mtx[0]); flag = 1; fiber_cond_broadcast(&cond); fiber_mutex_unlock(&mtx[0]);
+    t2_advance_ticks(1);
+    t2_poll_from_fiber();
     for (int f = 0; f < nf; f++)
       if (atomic_load(&receiving[f]) && chans[f]->high == chans[f]->low) fiber_bounded_channel_send(chans[f], (void*)(intptr_t)99);
     fiber_yield();
